@@ -31,7 +31,7 @@ Walk(tr, cf, st, a, j, drifted) ==
   ELSE LET ev == tr.calls[j]
            b == RObs(ev.obs)
            m == Do(cf, st, ev.call)
-           cl == ClauseFail(cf, ev.hasarg = 1, st.started, a, b, ev.call, ev.ret)
+           cl == ClauseFail(cf, ev.hasarg = 1, st.started, st.ran, a, b, ev.call, ev.ret)
        IN IF cl # "" THEN <<[id |-> tr.id, kind |-> "violation", clause |-> cl, event |-> j, call |-> ev.call,
                              ret |-> ev.ret, cfg |-> cf, pre |-> a, post |-> b]>>
           ELSE IF ~drifted /\ cf.tmo # 2 /\ (m.ret # ev.ret \/ Obs(cf, m.st) # b)
